@@ -443,7 +443,7 @@ def check_c19(tier):
                 b, err = built[fh]
                 if err: return (fh, None, err)
                 f, h = fh
-                return (fh, run_fsmx(b, 'F%d[%s]/%s/uses[%s]' % (bi, '+'.join(f), h, '+'.join(U)), ['C19'] + ([] if U else ['C17']), (0 if ('PLANS' in U and tier == 'quick') else 1), (M_TP if base.get('PAYLOAD') else M_T) | mfx, O_T | og('PAYLOAD', 'MANUAL') | ogx, workers=1, flags=['--neutral=%d' % mask, '--no-fresh'] + ([] if U else ['--copy', '--copy-move', '--copy-dev=0']), deadline=150, samples=1), None)
+                return (fh, run_fsmx(b, 'F%d[%s]/%s/uses[%s]' % (bi, '+'.join(f), h, '+'.join(U)), ['C19'] + ([] if U else ['C17']), (0 if 'PLANS' in U else 1), (M_TP if base.get('PAYLOAD') else M_T) | mfx, O_T | og('PAYLOAD', 'MANUAL') | ogx, workers=1, flags=['--neutral=%d' % mask, '--no-fresh'] + ([] if U else ['--copy', '--copy-move', '--copy-dev=0']), deadline=150 if tier == 'quick' else 500, samples=1), None)
             with ThreadPoolExecutor(max_workers=NCPU) as ex:
                 outs = list(ex.map(runone, group))
             for (f, h), run, err in outs:
